@@ -14,9 +14,17 @@ Proof. split; intro t; unfold tsz, tget; rewrite PositiveMap.gempty; reflexivity
 Lemma clean_pure sid tk : clean tk -> pure (empty_store sid tk).
 Proof. intros [Hh _] t (sd & b & j & R & _). unfold raw in R. cbn in R. rewrite Hh in R. discriminate. Qed.
 
-Lemma empty_inv sid tk : clean tk -> Inv (empty_store sid tk) /\ abs (empty_store sid tk) = [].
+(* the general situation of a new store object: other stores exist (their tokens carry handles with other
+   ids); only the new identity must be unused *)
+Definition sizes_ok (tk : tokmap) : Prop := forall t, tsz tk t = token_size (t_text (tget tk t)).
+Definition fresh_id (sid : positive) (tk : tokmap) : Prop :=
+  forall t sd b j, t_handle (tget tk t) = Some (sd, b, j) -> sd <> sid.
+Lemma clean_fresh sid tk : clean tk -> sizes_ok tk /\ fresh_id sid tk.
+Proof. intros [Hh Hs]. split; [exact Hs|]. intros t sd b j H. rewrite Hh in H. discriminate. Qed.
+
+Lemma empty_inv_gen sid tk : sizes_ok tk -> fresh_id sid tk -> Inv (empty_store sid tk) /\ abs (empty_store sid tk) = [].
 Proof.
-  intros [Hh Hs]. assert (toks (empty_store sid tk) 1 = []) as T1 by reflexivity.
+  intros Hs Hfr. assert (toks (empty_store sid tk) 1 = []) as T1 by reflexivity.
   split; [split|reflexivity]; [|reflexivity]. constructor.
   - discriminate.
   - repeat constructor. intros [].
@@ -26,9 +34,13 @@ Proof.
   - intros b [<-|[]] _. split; [split|auto].
     + intros j t H. rewrite T1 in H. destruct j; discriminate.
     + reflexivity.
-  - intros t H. exfalso. apply H. apply free_hnd. apply Hh.
+  - intros t H. exfalso. apply H. destruct (hnd (empty_store sid tk) t) as [[b j]|] eqn:E; [|reflexivity].
+    apply hnd_raw in E. exfalso. exact (Hfr t _ _ _ E eq_refl).
   - exact Hs.
 Qed.
+
+Lemma empty_inv sid tk : clean tk -> Inv (empty_store sid tk) /\ abs (empty_store sid tk) = [].
+Proof. intro Hc. destruct (clean_fresh sid tk Hc). apply empty_inv_gen; assumption. Qed.
 
 Lemma inv_empty_clean s : Inv s -> pure s -> abs s = [] -> clean (s_toks s).
 Proof.
@@ -36,15 +48,36 @@ Proof.
   apply (pure_free s t II Hp). rewrite E. intros [].
 Qed.
 
-Theorem from_tokens_spec LF sid tk ts s' r : 1 <= LF -> clean tk -> NoDup ts ->
-  from_tokens LF sid tk ts = (s', r) ->
-  r = Ok tt /\ Inv s' /\ abs s' = ts /\ (forall t, txt s' t = t_text (tget tk t)) /\ s_id s' = sid /\ pure s'.
+Definition all_free (tk : tokmap) (ts : list positive) : Prop := forall t, In t ts -> t_handle (tget tk t) = None.
+
+Lemma all_free_existsb tk ts :
+  existsb (fun t => match t_handle (tget tk t) with Some _ => true | None => false end) ts = false <-> all_free tk ts.
 Proof.
-  intros HLF Hc ND H. pose proof Hc as [Hh Hs]. unfold from_tokens in H.
-  rewrite existsb_false in H by (intros t _; rewrite Hh; reflexivity).
-  destruct (empty_inv sid tk Hc) as [[I0 L0] E0].
+  split.
+  - intros H t Ht. destruct (t_handle (tget tk t)) eqn:E; [|reflexivity]. exfalso.
+    assert (existsb (fun t => match t_handle (tget tk t) with Some _ => true | None => false end) ts = true) as C; [|congruence].
+    apply existsb_exists. exists t. rewrite E. auto.
+  - intro H. apply existsb_false. intros t Ht. rewrite (H t Ht). reflexivity.
+Qed.
+
+Lemma has_dup_nodup l : has_dup l = false <-> NoDup l.
+Proof.
+  split; [|apply has_dup_false]. intro Ed. induction l as [|x r IH]; [constructor|]. cbn [has_dup] in Ed.
+  apply orb_false_elim in Ed as [E1 E2]. constructor; [|apply IH; exact E2]. intro Hin.
+  assert (existsb (Pos.eqb x) r = true) as C; [|congruence]. apply existsb_exists. exists x. split; [exact Hin|apply Pos.eqb_refl].
+Qed.
+
+(* from_tokens on a list of free, distinct tokens, next to whatever other stores exist *)
+Theorem from_tokens_gen LF sid tk ts s' r : 1 <= LF -> sizes_ok tk -> fresh_id sid tk -> all_free tk ts -> NoDup ts ->
+  from_tokens LF sid tk ts = (s', r) ->
+  r = Ok tt /\ Inv s' /\ abs s' = ts /\ (forall t, txt s' t = t_text (tget tk t)) /\ s_id s' = sid /\
+  (forall t, ~ In t ts -> tget (s_toks s') t = tget tk t).
+Proof.
+  intros HLF Hs Hfr Haf ND H. unfold from_tokens in H.
+  rewrite (proj2 (all_free_existsb tk ts) Haf), (has_dup_false ts ND) in H.
+  destruct (empty_inv_gen sid tk Hs Hfr) as [[I0 L0] E0].
   destruct ts as [|t0 ts0].
-  - injection H as <- <-. split; [reflexivity|]. split; [split; assumption|]. split; [exact E0|]. split; [reflexivity|]. split; [reflexivity|apply clean_pure; exact Hc].
+  - injection H as <- <-. split; [reflexivity|]. split; [split; assumption|]. split; [exact E0|]. split; [reflexivity|]. split; reflexivity.
   - set (ts := t0 :: ts0) in *.
     destruct (build_blocks LF (length ts) (empty_store sid tk) 0 ts) as [s1 r1] eqn:EB.
     destruct (build_blocks_spec LF HLF _ _ _ _ _ _ (le_n _) ND EB) as (bs & -> & HBB).
@@ -71,12 +104,50 @@ Proof.
     + split; [reflexivity|]. cbn [flat_map app] in Ea'. rewrite app_nil_r in Ea'.
       split; [split; [exact I'|rewrite Ea'; reflexivity]|]. split; [exact Ea'|].
       split; [intro t; apply (proj2 (B11 t))|]. split; [exact B13|].
-      intros t (sd & b & j & R & N). change (raw sf t) with (raw s1 t) in R. change (s_id sf) with (s_id s1) in N.
-      destruct (in_dec Pos.eq_dec t ts) as [Hin|Hin].
-      * rewrite <- Ea' in Hin. apply In_nth_error in Hin as [k Hk].
-        destruct (locate_inv sf k t I' Hk) as (_ & b' & j' & _ & _ & _ & Hh' & _). apply hnd_raw in Hh'.
-        change (raw sf t) with (raw s1 t) in Hh'. change (s_id sf) with (s_id s1) in Hh'. congruence.
-      * unfold raw in R. rewrite (B12 t Hin) in R. cbn in R. rewrite Hh in R. discriminate.
+      intros t Hn. change (s_toks sf) with (s_toks s1). apply B12; exact Hn.
+Qed.
+
+(* ... refused (ValueError) exactly when a token is attached somewhere or listed twice; the result is then the
+   fresh empty store object that Python discards, and the token map (every token's text, size, handle) is
+   the one passed in *)
+Theorem from_tokens_refused LF sid tk ts : ~ (all_free tk ts /\ NoDup ts) ->
+  from_tokens LF sid tk ts = (empty_store sid tk, Err ValueError).
+Proof.
+  intro H. unfold from_tokens.
+  destruct (existsb _ ts) eqn:E1; [reflexivity|]. destruct (has_dup ts) eqn:E2; [reflexivity|].
+  exfalso. apply H. split; [apply all_free_existsb; exact E1|apply has_dup_nodup; exact E2].
+Qed.
+
+Theorem from_tokens_iff LF sid tk ts : 1 <= LF -> sizes_ok tk -> fresh_id sid tk ->
+  (snd (from_tokens LF sid tk ts) = Ok tt <-> all_free tk ts /\ NoDup ts) /\
+  (snd (from_tokens LF sid tk ts) <> Ok tt ->
+     from_tokens LF sid tk ts = (empty_store sid tk, Err ValueError) /\ s_toks (fst (from_tokens LF sid tk ts)) = tk).
+Proof.
+  intros HLF Hs Hfr. split; [split|].
+  - intro H. destruct (existsb (fun t => match t_handle (tget tk t) with Some _ => true | None => false end) ts) eqn:E1.
+    + unfold from_tokens in H. rewrite E1 in H. discriminate.
+    + destruct (has_dup ts) eqn:E2; [unfold from_tokens in H; rewrite E1, E2 in H; discriminate|].
+      split; [apply all_free_existsb; exact E1|apply has_dup_nodup; exact E2].
+  - intros [Haf ND]. destruct (from_tokens LF sid tk ts) as [s' r] eqn:E.
+    destruct (from_tokens_gen LF sid tk ts s' r HLF Hs Hfr Haf ND E) as (-> & _). reflexivity.
+  - intro H. assert (~ (all_free tk ts /\ NoDup ts)) as N.
+    { intros [Haf ND]. apply H. destruct (from_tokens LF sid tk ts) as [s' r] eqn:E.
+      destruct (from_tokens_gen LF sid tk ts s' r HLF Hs Hfr Haf ND E) as (-> & _). reflexivity. }
+    rewrite (from_tokens_refused LF sid tk ts N). split; reflexivity.
+Qed.
+
+Theorem from_tokens_spec LF sid tk ts s' r : 1 <= LF -> clean tk -> NoDup ts ->
+  from_tokens LF sid tk ts = (s', r) ->
+  r = Ok tt /\ Inv s' /\ abs s' = ts /\ (forall t, txt s' t = t_text (tget tk t)) /\ s_id s' = sid /\ pure s'.
+Proof.
+  intros HLF Hc ND H. pose proof Hc as [Hh Hs]. destruct (clean_fresh sid tk Hc) as [Hs' Hfr].
+  destruct (from_tokens_gen LF sid tk ts s' r HLF Hs' Hfr (fun t _ => Hh t) ND H) as (-> & I' & Ea & Ht & Eid & Hfr').
+  split; [reflexivity|]. split; [exact I'|]. split; [exact Ea|]. split; [exact Ht|]. split; [exact Eid|].
+  intros t (sd & b & j & R & N).
+  destruct (in_dec Pos.eq_dec t ts) as [Hin|Hin].
+  - rewrite <- Ea in Hin. apply In_nth_error in Hin as [k Hk]. destruct I' as [I0 _].
+    destruct (locate_inv s' k t I0 Hk) as (_ & b' & j' & _ & _ & _ & Hh' & _). apply hnd_raw in Hh'. congruence.
+  - unfold raw in R. rewrite (Hfr' t Hin), Hh in R. discriminate.
 Qed.
 
 (* ---------- the list reference for operation histories ---------- *)
